@@ -669,7 +669,7 @@ func c11Run(c *mc.Ctx) {
 		}
 	}
 	listOthers := func(pass string, x *c11Handle, typs []uint8, sess []string, skip func(uint8, string) bool) {
-		if !x.b.HasDump {
+		if !x.b.HasDump && x.b.Kind != "pg" {
 			return
 		}
 		for _, typ := range typs {
